@@ -25,6 +25,15 @@ let parse_pout (t : string) : pout =
     match t.[0] with
     | 'i' -> PInt (z_of_int (int_of_string p))
     | 'd' -> PDouble (f64_of_hex p)
+    | 's' ->
+        (* s:<hex bytes>[:<what std::stod answers: hex64 | T (throws)>] *)
+        (match String.split_on_char ':' p with
+         | [b] | [b; "T"] ->
+             PString (List.init (String.length b / 2) (fun i -> z_of_int (int_of_string ("0x" ^ String.sub b (2 * i) 2))), None)
+         | [b; c] ->
+             PString (List.init (String.length b / 2) (fun i -> z_of_int (int_of_string ("0x" ^ String.sub b (2 * i) 2))),
+                      Some (f64_of_hex c))
+         | _ -> failwith "string value")
     | _ -> failwith "value"
 
 let rec n_of_z (x : z) : n = match x with Z0 -> N0 | Zpos p -> Npos p | Zneg _ -> failwith "n_of_z"
@@ -52,7 +61,8 @@ let () =
         | kind :: classes :: _n :: rest ->
             let rows = chunks6 rest in
             let key (i : pout list) = String.concat " " (List.map (function
-              | PVoid -> "v" | PInt z -> "i:" ^ dec_of_z z | PDouble f -> "d:" ^ hex_of_f64 f) i) in
+              | PVoid -> "v" | PInt z -> "i:" ^ dec_of_z z | PDouble f -> "d:" ^ hex_of_f64 f
+              | PString (b, _) -> "s:" ^ String.concat "" (List.map (fun c -> Printf.sprintf "%02x" (int_of_z c)) b)) i) in
             let tbl = Hashtbl.create 16 in
             let ttbl = Hashtbl.create 16 in
             let exs = List.map (fun (x1, x2, t, d, o, tg) ->
@@ -66,6 +76,11 @@ let () =
             let out i = Hashtbl.find tbl (key i) in
             let tag i = Hashtbl.find ttbl (key i) in
             let pr (d, f) = print_endline (show_fit f ^ " " ^ show_diff d) in
+            (* operator() / fast() with the exception path of lexical_cast (std::stod) *)
+            let prx errf step =
+              match sum_of_errors_impl_x (err_throws out) errf (nat_of_int step) exs with
+              | (d, Some f) -> pr (d, f)
+              | (d, None) -> print_endline ("THROW " ^ show_diff d) in
             let show_tags = function
               | None -> ""
               | Some l -> " tags=" ^ String.concat "," (List.map (fun (lab, su) -> dec_of_z lab ^ ":" ^ hex_of_f64 su) l) in
@@ -75,14 +90,14 @@ let () =
               | Undefined -> print_endline "UNDEFINED" in
             let ncls = nat_of_int (int_of_string classes) in
             (match kind with
-             | "mae" -> pr (soe_eval (mae_err out) exs)
-             | "mse" -> pr (soe_eval (mse_err out) exs)
-             | "rmae" -> pr (soe_eval (rmae_err out) exs)
-             | "count" -> pr (soe_eval (count_err out) exs)
-             | "mae.fast" -> pr (soe_fast (mae_err out) exs)
-             | "mse.fast" -> pr (soe_fast (mse_err out) exs)
-             | "rmae.fast" -> pr (soe_fast (rmae_err out) exs)
-             | "count.fast" -> pr (soe_fast (count_err out) exs)
+             | "mae" -> prx (mae_err out) 1
+             | "mse" -> prx (mse_err out) 1
+             | "rmae" -> prx (rmae_err out) 1
+             | "count" -> prx (count_err out) 1
+             | "mae.fast" -> prx (mae_err out) 5
+             | "mse.fast" -> prx (mse_err out) 5
+             | "rmae.fast" -> prx (rmae_err out) 5
+             | "count.fast" -> prx (count_err out) 5
              | "mae.pinned" -> pr (soe_eval_pinned (mae_err out) exs)
              | "mse.pinned" -> pr (soe_eval_pinned (mse_err out) exs)
              | "rmae.pinned" -> pr (soe_eval_pinned (rmae_err_pinned out) exs)
